@@ -149,7 +149,8 @@ def receiveHeadersRest (sid : Int) (block : Bytes) (endStream : Bool) (prio : Op
 
 def receiveHeadersFrame (sid : Int) (block : Bytes) (endStream : Bool) (prio : Option Prio) : CM FE := do
   let c ← getS
-  if !hasStream c sid then
+  -- only a frame that would open a stream counts against the limit (a frame for a closed and forgotten stream does not)
+  if !hasStream c sid && !streamIdIsOutbound c sid && sid > c.highestIn then
     let maxOpen := c.localSettings.maxConcurrentStreams
     let n ← openInboundStreams
     if n + 1 > maxOpen then raise (mkExc .TooManyStreamsError)
